@@ -17,8 +17,6 @@ from bounded import circuits_enum as ce  # noqa: E402
 from bounded.circuits_enum import E, S, P  # noqa: E402
 
 CTX = {}
-TIKZ = re.compile(r"to\[([A-Za-z]+)=\$(.*?)\$\]")
-TIKZ_KIND = {"R": "R", "C": "capacitor", "L": "L", "La": "L", "Q": "cpe"}
 
 
 def _mix(i, p, k):
@@ -36,7 +34,7 @@ def tlm_a(i, p, label=""):
 
 
 def tlm_b(i, p, label=""):
-    inner = "" if _mix(i, p, 3) else f"in{p}"
+    inner = "" if _mix(i, p, 3) else f"in_{p}_x"
     return E("Tlm", {"L": 0.8 + 0.1 * p}, label, (("X_1", S(E("R", {"R": 2.5 + p}, inner))),
                                                      ("Z_B", S(P(E("R", {"R": 5.0 + p}), E("C", {"C": 1e-5 * (p + 1)}))))))
 
@@ -51,10 +49,10 @@ def tlm_nested(p, labels=("", "", "")):
 def register_alphabets():
     mk = {
         "R": lambda i, p: E("R", {"R": 100.0 * (p + 1) + 3.0}),
-        "Rl": lambda i, p: E("R", {"R": 150.0 * (p + 1) + 1.0}, lab(i, p, f"r{p}")),
-        "C": lambda i, p: E("C", {"C": 1e-6 * (p + 2)}, "" if _mix(i, p, 4) else lab(i, p, f"c{p}")),
-        "QW": lambda i, p: (E("Q", {"Y": 1e-5 * (p + 1), "n": 0.6 + 0.05 * p}) if (i + p) % 2 else E("W", {"Y": 1e-3 * (p + 1), "n": 0.45 + 0.02 * p}, "" if _mix(i, p, 5) else f"w{p}")),
-        "TA": lambda i, p: tlm_a(i, p, "" if _mix(i, p, 3) else lab(i, p, f"t{p}")),
+        "Rl": lambda i, p: E("R", {"R": 150.0 * (p + 1) + 1.0}, lab(i, p, ce.pool_label(i, p, 16))),
+        "C": lambda i, p: E("C", {"C": 1e-6 * (p + 2)}, "" if _mix(i, p, 4) else lab(i, p, ce.pool_label(i, p, 16))),
+        "QW": lambda i, p: (E("Q", {"Y": 1e-5 * (p + 1), "n": 0.6 + 0.05 * p}) if (i + p) % 2 else E("W", {"Y": 1e-3 * (p + 1), "n": 0.45 + 0.02 * p}, "" if _mix(i, p, 5) else ce.pool_label(i, p, 17))),
+        "TA": lambda i, p: tlm_a(i, p, "" if _mix(i, p, 3) else lab(i, p, ce.pool_label(i, p, 18))),
         "TB": lambda i, p: tlm_b(i, p),
     }
     ce.ALPHABETS["c16"] = [mk[k] for k in ("R", "Rl", "C", "QW", "TA", "TB")]
@@ -63,10 +61,6 @@ def register_alphabets():
 
 
 # ------------------------------------------------------------------------------------------------- evaluation
-def norm_tikz(label):
-    return label.replace(r"{\rm ", "").replace("}", "")
-
-
 def repro_head(spec):
     return (ce.REPRO_HEAD + "import re, collections\nfrom pyimpspec.circuit.base import Connection, Container\n"
             f"c = Circuit({ce.to_source(spec)})\n"
@@ -94,10 +88,11 @@ REPRO = {
               "assert {str(s) for s in ex.free_symbols} - {'f'} <= {str(s) for s in m}, ex.free_symbols\n"
               "m[sympy.Symbol('f')] = sympy.Float(F0)\nz = complex(ex.xreplace(m).evalf()); r = c.get_impedances([F0])[0]\nassert abs(z - r) <= 1e-8 * abs(r), (z, r)\n"),
     "tikz": ("cnt = c.generate_element_identifiers(running=False); run = c.generate_element_identifiers(running=True)\ntop = walk(c._elements, deep=False)\n"
+             "KIND = {'R': 'R', 'C': 'capacitor', 'L': 'L', 'La': 'L', 'Q': 'cpe'}\n"
              "for running, ids in ((False, cnt), (True, run)):\n    src = c.to_circuitikz(running=running)\n"
-             "    got = sorted(l.replace('{\\\\rm ', '').replace('}', '') for _, l in re.findall(r'to\\[([A-Za-z]+)=\\$(.*?)\\$\\]', src))\n"
-             "    want = sorted(e.get_symbol() + '_' + (e.get_label() or str(ids[e])) for e in top)\n    assert got == want, (running, got, want)\n"
-             "    if not running: assert want == sorted(c.get_element_name(e) for e in top)\n"),
+             "    got = collections.Counter(re.findall(r'to\\[([A-Za-z]+)=(\\$.*?\\$)\\]', src))\n"
+             "    want = collections.Counter((KIND.get(e.get_symbol(), 'generic'), '$' + e.get_symbol() + '_{\\\\rm ' + str(e.get_label() or ids[e]) + '}$') for e in top)\n"
+             "    assert got == want, (running, sorted((got - want).elements()), sorted((want - got).elements()))\n"),
     "container": ("for t in els:\n    if not isinstance(t, Container): continue\n    inside = []\n    for s in t.get_subcircuits().values():\n        if s is not None: inside += walk(s)\n"
                   "    for running in (True, False):\n        ids = t.generate_element_identifiers(running=running)\n        assert ids[t] == -1\n"
                   "        assert set(map(id, ids)) == set(map(id, inside)) | {id(t)}, (running, len(ids), len(inside) + 1)\n"
@@ -246,18 +241,18 @@ def eval_spec(spec, part, out):
         except Exception:  # noqa   (totality of the export is C20's business)
             bump("circuitikz-unavailable")
             break
-        comps = TIKZ.findall(src)
-        got = sorted(norm_tikz(lbl) for _, lbl in comps)
-        wantl = sorted(e.get_symbol() + "_" + (e.get_label() or str(idm[e])) for e in top)
-        if got != wantl or (not running and wantl != sorted(c.get_element_name(e) for e in top)):
-            fail(f"circuitikz:labels differ from element names:running={running}", "to_circuitikz", f"{got} vs {wantl}", "tikz")
+        # per element: (component kind, exact label text) derived from (symbol, whole label or identifier) only
+        comps = collections.Counter(ce.TIKZ_COMPONENT.findall(src))
+        wantc = collections.Counter((ce.TIKZ_KIND.get(e.get_symbol(), "generic"), ce.diagram_label(e.get_symbol(), e.get_label() or idm[e])) for e in top)
+        if comps != wantc:
+            gt, wt = collections.Counter(t for _, t in comps.elements()), collections.Counter(t for _, t in wantc.elements())
+            if sum(gt.values()) != len(top):
+                fail(f"circuitikz:labels differ from element names:running={running}", "to_circuitikz", f"{sum(gt.values())} labelled components for {len(top)} elements", "tikz")
+            elif gt != wt:
+                fail("circuitikz:label-text-wrong", "to_circuitikz", f"running={running}: got {sorted((gt - wt).elements())}, required {sorted((wt - gt).elements())}", "tikz")
+            else:
+                fail("circuitikz:label on a component of another type", "to_circuitikz", f"{sorted((comps - wantc).elements())}", "tikz")
             break
-        if len(set(wantl)) == len(wantl):
-            kind = {norm_tikz(lbl): k for k, lbl in comps}
-            wrong = [(nm, kind[nm]) for e in top for nm in [e.get_symbol() + "_" + (e.get_label() or str(idm[e]))] if kind[nm] != TIKZ_KIND.get(e.get_symbol(), "generic")]
-            if wrong:
-                fail("circuitikz:label on a component of another type", "to_circuitikz", f"{wrong}", "tikz")
-                break
         bump("circuitikz")
     # 8. symbolic variables denote the element with that identifier (numerical check), sampled because sympy is slow
     d = ce.digest(spec)
@@ -309,7 +304,7 @@ def eval_spec(spec, part, out):
                     fail("fit-table:dataframe differs from element values", "FitResult.to_parameters_dataframe", f"{rows}", "fittable")
                 bump("fit-table")
     # 9. schemdraw labels (slow: sparse sample)
-    if d % CTX["DRAW_MOD"] == 0:
+    if d % CTX["DRAW_MOD"] == 0 or part == "label-text":
         try:
             dr = c.to_drawing()
         except Exception:  # noqa
@@ -317,9 +312,9 @@ def eval_spec(spec, part, out):
             bump("to_drawing-unavailable")
         if dr is not None:
             got = sorted(l.label for x in dr.elements for l in getattr(x, "_userlabels", []) if l.label)
-            wantl = sorted("$" + e.get_symbol() + r"_{\rm " + (e.get_label() or str(cnt[e])) + "}$" for e in top)
+            wantl = sorted(ce.diagram_label(e.get_symbol(), e.get_label() or cnt[e]) for e in top)
             if got != wantl:
-                fail("drawing:labels differ from element names", "to_drawing", f"{got} vs {wantl}", "drawing")
+                fail("drawing:label-text-wrong" if len(got) == len(wantl) else "drawing:labels differ from element names", "to_drawing", f"{got} vs {wantl}", "drawing")
             bump("drawing")
     return True
 
@@ -372,11 +367,16 @@ def make_jobs(a):
             for pat in np.ndindex(3, 3, 3):
                 leaves = []
                 for p, (t, st) in enumerate(zip(ty, pat)):
-                    label = ["", f"u{p}", "same"][st]
+                    label = ["", ce.LABEL_POOL[(2 * p + sum(pat)) % len(ce.LABEL_POOL)], "sa_me_1"][st]
                     leaves.append(tlm_a(0, p, label) if t == "T" else E(t, vals[t](p), label))
                 lab_specs.append(ce.fill(shape, leaves))
     for i in range(0, len(lab_specs), 150):
         jobs.append(("label-patterns", "list", tuple(lab_specs[i:i + 150])))
+    # label text: every pool label (underscores / digits in several positions) on every basic type, alone and mixed with
+    # unlabelled and differently labelled elements of the same type
+    lt = ce.label_text_specs()
+    for i in range(0, len(lt), 12):
+        jobs.append(("label-text", "list", tuple(lt[i:i + 12])))
     # containers nested in containers
     nested = []
     r0, c0 = E("R", {"R": 50.0}), E("C", {"C": 1e-5}, "cx")
@@ -419,7 +419,8 @@ def main(a):
     CTX["SYMPY_ALL"], CTX["SYMPY_MOD"], CTX["DRAW_MOD"] = (2, 6, 150) if a.tier == "quick" else (2, 20, 400)
     jobs, bound, n_rand = make_jobs(a)
     res = Result("C16", f"{bound}; alphabet = R, labelled R, C, Q/W (same parameter keys), two Tlm containers with labelled/unlabelled elements inside; every {{none, unique, shared}} label pattern on "
-                 f"3 repeated elements over the 3-leaf topologies; containers nested in containers; fit_circuit parameter tables for {24 if a.tier == 'quick' else 158} circuits (up to ~25 elements); {n_rand} random circuits with 6..{12 if a.tier == 'quick' else 16} leaves; "
+                 f"3 repeated elements over the 3-leaf topologies; labels drawn from {ce.LABEL_POOL} (underscores and digits in several positions), each also alone and mixed with unlabelled / other-labelled "
+                 f"elements of the same type for R, C, L, Q, W, Tlm with exact CircuiTikZ and schemdraw label text; containers nested in containers; fit_circuit parameter tables for {24 if a.tier == 'quick' else 158} circuits (up to ~25 elements); {n_rand} random circuits with 6..{12 if a.tier == 'quick' else 16} leaves; "
                  f"numerical sympy check on all circuits with <= {CTX['SYMPY_ALL']} leaves and 1/{CTX['SYMPY_MOD']} of the others, schemdraw labels on 1/{CTX['DRAW_MOD']}",
                  "shapes = ordered S/P trees incl. same-kind nesting and one-child connections; leaves = cartesian power of the alphabet (labels vary with the case index); a case = one circuit "
                  "object; checked: identifier maps against an own traversal, names, validate_circuit, generate_fit_identifiers, FitResult.parameters / to_parameters_dataframe (sampled), Container-level maps, CircuiTikZ/schemdraw labels, and that the "
@@ -441,6 +442,9 @@ def main(a):
             allf += out["fails"]
     for size, key, fn, what, repro in sorted(allf, key=lambda r: (r[0], r[1], len(r[3]))):
         res.fail(key, fn, what, repro)
+    # labels that are digits-only after stripping must be refused, otherwise 'R_1' is ambiguous (names must be unique)
+    from bounded.c14 import label_contract_part
+    label_contract_part(res, prop='C16')
     return res
 
 
